@@ -909,20 +909,24 @@ class DATETIME(NUMERIC):
     def parse_range(self, fieldname, start, end, startexcl, endexcl,
                     boost=1.0):
         from whoosh import query
+        from whoosh.util.times import is_ambiguous
 
         if start is None and end is None:
             return query.Every(fieldname, boost=boost)
 
         # An inclusive bound covers the whole typed period, an exclusive bound
-        # leaves the whole typed period out
+        # leaves the whole typed period out (a date typed down to the
+        # microsecond is an instant, not a period)
         if start is not None:
             startdt = self._parse_datestring(start)
-            startdt = startdt.ceil() if startexcl else startdt.floor()
+            if is_ambiguous(startdt):
+                startdt = startdt.ceil() if startexcl else startdt.floor()
             start = datetime_to_long(startdt)
 
         if end is not None:
             enddt = self._parse_datestring(end)
-            enddt = enddt.floor() if endexcl else enddt.ceil()
+            if is_ambiguous(enddt):
+                enddt = enddt.floor() if endexcl else enddt.ceil()
             end = datetime_to_long(enddt)
 
         return query.NumericRange(fieldname, start, end, startexcl, endexcl,
